@@ -41,6 +41,16 @@ class Protocol(Component):
             if getattr(source_event, 'node_protocol', None) is self:
                 self.send_result(source_event.node_call_id, source_event.value)
 
+    @handler('exception', channel='*', priority=100)
+    def error_handler(self, event, *args, **kwargs):
+        fevent = kwargs.get('fevent')
+        if getattr(fevent, 'node_protocol', None) is self and not getattr(fevent, 'node_error_sent', False):
+            fevent.node_error_sent = True
+            value = Value(fevent, self)
+            value._value = repr(args[1])
+            value.errors = True
+            self.send_result(fevent.node_call_id, value)
+
     def send(self, event):
         if self.__send_event_firewall and not self.__send_event_firewall(event, self.__sock):
             yield Value(event, self)
@@ -118,6 +128,7 @@ class Protocol(Component):
             # save result
             ev.value.setValue(value)
             ev.errors = error
+            ev.value.errors = bool(error)
             ev.remote_finish = True
 
             for k, v in meta.items():
